@@ -16,6 +16,7 @@ import json
 import os
 
 from . import tables as T
+from . import hirq as H
 from . import wire as W
 from . import c11
 from .engine import VERIF
@@ -123,5 +124,21 @@ def run(ctx):
                 if m["with"] and (a["path"], m["field"]) not in documented:
                     ctx.oblige("C01|undocumented-lossy|%s|%s" % (a["path"], m["field"]), False,
                                "%s.%s is decoded through %s but is not a documented lossy member" % (a["path"], m["field"], m["with"]["fn"]), cfg=cfg)
+        # hand-written sequence visitors on the request path consume their whole array: cbor-smol does not skip what a
+        # visitor leaves behind, so an early exit desynchronises the enclosing map ("well-formed request is rejected")
+        from . import c14
+        for ty in ("webauthn::FilteredPublicKeyCredentialParameters", "ctap2::AttestationFormatsPreference"):
+            de, vs = c14.find_visit_seq(F, ty)
+            if not ctx.oblige("C01|drains|%s|anchor" % ty, vs is not None, "anchor missing: hand-written visit_seq of " + ty, cfg=cfg):
+                continue
+            lp = c14.loop_parts(vs)
+            ok = lp is not None
+            why = "the element loop is not `while let Some(x) = seq.next_element()? { .. }` (another loop guard or exit can stop it early)"
+            if ok:
+                inner = [x for x in H.walk(lp["body"]) if x.get("k") in ("break", "ret")]
+                n_loops = len([x for x in H.walk(vs["body"]) if x.get("k") == "loop"])
+                ok = not inner and n_loops == 1
+                why = "the element loop can be left before the array is exhausted (`%s` inside the loop)" % (inner[0]["k"] if inner else "nested loop")
+            ctx.oblige("C01|drains|" + ty, ok, "%s: %s; the rest of the array would be read as the next request parameter" % (ty, why), cfg=cfg, where=vs["sp"])
         n = c11.check_dispatch(ctx, F, cfg, cmds, P="C01")
         ctx.floor("command switch result sites", n, 3, cfg=cfg)
